@@ -63,12 +63,33 @@ type Obligation struct {
 	Text   string // human description
 	cmdN   int
 	goal   string
+	parts  []string // the goal split into conjuncts (each proved separately)
 	allow  map[string]bool
 	fn     *FnCtx
 	extra  []string // extra assertions (e.g. instantiation hints)
+	failedPart int
 
 	Res solveResult
 	All []solveResult
+}
+
+// rdEvent records one modelled Read/ReadFull call (for building scripted readers in replays).
+type rdEvent struct {
+	reach, id, n, errTyp, errPay, pos string
+}
+
+// vacuityCheck asks that a program point is reachable under the assumptions made so far.
+type vacuityCheck struct {
+	what   string
+	cmdN   int
+	reach  string
+	status string
+}
+
+type ghostClause struct {
+	cl   Clause
+	seen int
+	done bool
 }
 
 type epochRec struct {
@@ -139,6 +160,11 @@ type FnCtx struct {
 	callOrd  map[string]int
 	retCount int
 	closureOf map[*ssa.Alloc]*ssa.MakeClosure
+	firstIter []string
+	vacuity   []*vacuityCheck
+	ghostAt   []ghostClause
+	lastLine  int
+	rdEvents  []rdEvent
 }
 
 func (c *FnCtx) fresh(hint string) string {
@@ -175,6 +201,14 @@ func (c *FnCtx) define(hint, sort, body string) string {
 		return body
 	}
 	n := c.fresh(hint)
+	if sort == sBool {
+		// Booleans (path conditions) are named constants with a defining
+		// equation: as macros they would copy quantified invariants into
+		// every term that mentions them.
+		c.cmds = append(c.cmds, cmd{kind: cDeclare, name: n, sort: sort})
+		c.cmds = append(c.cmds, cmd{kind: cAssert, body: eq(n, body)})
+		return n
+	}
 	c.cmds = append(c.cmds, cmd{kind: cDefine, name: n, sort: sort, body: body})
 	return n
 }
@@ -223,6 +257,9 @@ func (c *FnCtx) oblige(st *State, kind, anchor string, pos token.Pos, cond, text
 	}
 	o := &Obligation{ID: c.name + "/" + key, Func: c.name, Kind: kind, Anchor: anchor, Props: props,
 		Text: text, cmdN: len(c.cmds), goal: implies(st.reach, cond), fn: c, allow: map[string]bool{}}
+	for _, p := range splitAnd(cond) {
+		o.parts = append(o.parts, implies(st.reach, p))
+	}
 	if pos.IsValid() {
 		o.Pos = c.eng.prog.Fset.Position(pos)
 	}
@@ -394,7 +431,7 @@ func (c *FnCtx) freshVal(st *State, t types.Type, hint string) Val {
 	case *types.Slice:
 		v := VSlice{c.declare(hint+".base", sInt), c.declare(hint+".off", sInt), c.declare(hint+".len", sInt), c.declare(hint+".cap", sInt), u.Elem()}
 		c.assert(and(le("0", v.Base), le("0", v.Off), le("0", v.Len), le(v.Len, v.Cap), le(plus(v.Off, v.Cap), maxInt)))
-		c.assert(lt(v.Base, st.nextRef))
+		c.assert(and(lt(v.Base, st.nextRef), or(eq(v.Base, "0"), lt("1000", v.Base))))
 		// nil slice has zero len/cap
 		c.assert(implies(eq(v.Base, "0"), and(eq(v.Cap, "0"), eq(v.Off, "0"))))
 		return v
@@ -414,7 +451,7 @@ func (c *FnCtx) freshVal(st *State, t types.Type, hint string) Val {
 		return out
 	case *types.Pointer:
 		n := c.declare(hint, sInt)
-		c.assert(and(le("0", n), lt(n, st.nextRef)))
+		c.assert(and(le("0", n), lt(n, st.nextRef), or(eq(n, "0"), lt("1000", n))))
 		return VPtr{Root: rootObj, Ref: n, T: u.Elem()}
 	case *types.Tuple:
 		out := VTuple{}
@@ -815,6 +852,11 @@ func (c *FnCtx) convertInt(from, to types.Type, x string) string {
 		return x
 	case fu && !tu && fb < tb:
 		return x
+	case !fu && tu && fb <= tb:
+		// negative values wrap once
+		return ite(lt(x, "0"), plus(x, pow2[tb]), x)
+	case fu && !tu && fb == tb:
+		return ite(app(">=", x, pow2[tb-1]), minus(x, pow2[tb]), x)
 	}
 	return wrapMod(to, x)
 }
@@ -977,4 +1019,30 @@ func trivialTrue(cond string) bool {
 		return a == b
 	}
 	return false
+}
+
+// splitAnd flattens nested top-level conjunctions.
+func splitAnd(cond string) []string {
+	if !strings.HasPrefix(cond, "(and ") {
+		return []string{cond}
+	}
+	body := cond[5 : len(cond)-1]
+	var out []string
+	d := 0
+	start := 0
+	for i := 0; i <= len(body); i++ {
+		if i == len(body) || (body[i] == ' ' && d == 0) {
+			if i > start {
+				out = append(out, splitAnd(body[start:i])...)
+			}
+			start = i + 1
+			continue
+		}
+		if body[i] == '(' {
+			d++
+		} else if body[i] == ')' {
+			d--
+		}
+	}
+	return out
 }
